@@ -398,6 +398,12 @@ type coseJob struct {
 }
 
 func runCoseJob(r *Runner, j coseJob, idx int) {
+	b, built := coseJobBuild(j)
+	submitCose(r, b, built, j.label, fmt.Sprintf("%s-%d", j.label, idx), nil)
+}
+
+// coseJobBuild: the envelope a job describes
+func coseJobBuild(j coseJob) (*coseBuild, *builtCOSE) {
 	id := getIdentity(j.keyID, j.n)
 	otherKey := "ec384-0"
 	if strings.HasPrefix(j.keyID, "ec384") {
@@ -436,8 +442,7 @@ func runCoseJob(r *Runner, j coseJob, idx int) {
 	for _, m := range j.muts {
 		m.fn(b, ctx)
 	}
-	built := b.build()
-	submitCose(r, b, built, j.label, fmt.Sprintf("%s-%d", j.label, idx), nil)
+	return b, b.build()
 }
 
 func submitCose(r *Runner, b *coseBuild, built *builtCOSE, class, id string, tags []string) {
